@@ -4,6 +4,7 @@ pub mod c03;
 pub mod c09;
 pub mod c10;
 pub mod c14;
+pub mod c15;
 pub mod c20;
 
 use crate::engine::Tier;
@@ -22,6 +23,7 @@ pub fn dispatch(id: &str, args: Args) -> ! {
         "C09" => c09::run(args),
         "C10" => c10::run(args),
         "C14" => c14::run(args),
+        "C15" => c15::run(args),
         "C20" => c20::run(args),
         _ => crate::engine::fault(&format!("unknown property {id}")),
     }
